@@ -139,7 +139,7 @@ theorem sub_iff (zone name : Name) : sub zone name = true ↔ LabelSuffix zone n
       have hle := compareSuffix_le_right zone name
       have hzn : zone.length ≤ name.length := by omega
       have hn : name ≠ [] := by
-        intro hn; subst hn; simp at hzn; omega
+        intro hn; rw [hn] at hzn; simp only [List.length_nil] at hzn; omega
       unfold compareSuffix at h
       simp only [hz, hn, or_self, if_false] at h
       have h0 : zone.length - name.length = 0 := by omega
@@ -183,7 +183,7 @@ theorem lower_flatten_of_labelsEq {a b : Name} (h : LabelsEq a b) :
     lower a.flatten = lower b.flatten := by
   unfold LabelsEq at h
   have : ∀ (l : Name), lower l.flatten = (l.map lower).flatten := by
-    intro l; unfold lower; rw [List.map_flatten]; rfl
+    intro l; unfold lower; rw [List.map_flatten]
   rw [this, this, h]
 
 /-! ### the splitter loses nothing -/
@@ -389,7 +389,7 @@ theorem extractStep_inv (info : DelegInfo) (seen : List AuthRR) (rr : AuthRR)
           obtain ⟨t, g, m⟩ := inv.anchored o1 c1 (by simpa [hns] using h)
           exact ⟨t, g, by simp [m]⟩
         · intro o1 c1 _ hi; simp at hi
-        · intro h; simp [hns] at h
+        · intro h; simp at h
         · intro h hh
           obtain ⟨o2, c2, t, g, m, e, r⟩ := inv.hosts h hh
           exact ⟨o2, c2, t, g, by simp [m], e, by simpa [hns] using r⟩
@@ -417,7 +417,7 @@ theorem extractStep_inv (info : DelegInfo) (seen : List AuthRR) (rr : AuthRR)
           rcases m with m | m
           · exact inv.coherent o1 c1 hns hi o' c' t g m
           · cases m; exact hmix'
-        · intro h; simp [hns] at h
+        · intro h; simp at h
         · intro h hh
           rcases mem_addHost hh with hh | rfl
           · obtain ⟨o2, c2, t, g, m, e, r⟩ := inv.hosts h hh
